@@ -160,6 +160,14 @@ class TaskManager:
         # ⏳ Wait for all cancellations to complete.
         await asyncio.gather(*all_tasks, return_exceptions=True)
 
-        # 🧹 Clear the entire tracking dictionary.
-        self._tasks_by_owner.clear()
+        # 🧹 Forget only what was cancelled. A task registered while the
+        #    gather above was awaiting (the interpreter's run loop may still
+        #    enter a state that arms a timer or starts a service) used to be
+        #    wiped from the registry by a blanket `clear()` without ever
+        #    being cancelled, so nothing could reach it any more.
+        cancelled = set(all_tasks)
+        for owner_id in list(self._tasks_by_owner):
+            self._tasks_by_owner[owner_id] -= cancelled
+            if not self._tasks_by_owner[owner_id]:
+                del self._tasks_by_owner[owner_id]
         logger.info("✅ All managed tasks have been cancelled successfully.")
